@@ -27,6 +27,8 @@ def run(repo, rep):
     alg.reset()
     common.state_rule(repo, rep, [('geodepy.geodesy', 'vincdir')])
     common.typecheck_rules(repo, rep)
+    common.domain_guards(repo, rep, 'geodepy.geodesy', 'vincdir', ['lat1', 'lon1', 'az', 'dist'],
+                         {'lat1': (-90, 90), 'lon1': (-180, 180), 'az': (0, 360), 'dist': (0, 20000000)}, 'latitudes -90..90, longitudes -180..180, azimuths 0..360, distances 0..20 000 km')
     rep.trust('sv/alg.py exact normal forms; generator independence modulo the rewrite rules applied')
     rep.trust('reference equations: GDA2020 technical manual v1.x eq. 88-102 (Vincenty 1975)')
     f = repo.func('geodepy.geodesy', 'vincdir')
